@@ -123,6 +123,9 @@ func genCrash(g *Gen) {
 					l.drain()
 					flush()
 					rw.emit("remove", "remove "+w)
+					// what the listing says while the removal is only marked: every OTHER wallet is still ready
+					// (seed C06-5: the removed flag leaked to the wallets listed after the marked one)
+					rw.emit("wallets-after-mark", "rec wallets")
 					removed = w
 					l.wallets = l.wallets[1:] // no new addresses / payments for it from here on
 					if g.Rng.Intn(2) == 0 {
@@ -159,6 +162,7 @@ func genCrash(g *Gen) {
 			l.drain()
 			flush()
 			rw.emit("remove", "remove "+l.wallets[0])
+			rw.emit("wallets-after-mark", "rec wallets")
 			rw.emit("removerun", "removerun "+l.wallets[0])
 			l.wallets = l.wallets[1:]
 		}
